@@ -153,19 +153,22 @@ func sortedItems(b *hclsyntax.Body) []synItem {
 // fileOfBody evaluates every attribute in a nil context. ok=false when some
 // expression does not evaluate cleanly (not a constant): such files are outside the
 // abstract-file model.
-func fileOfBody(b *hclsyntax.Body) (f *AFile, ok bool) {
+func fileOfBody(b *hclsyntax.Body) (f *AFile, ok bool) { return fileOfBodyCtx(b, nil) }
+
+// fileOfBodyCtx: the same with an EvalContext (marked variables).
+func fileOfBodyCtx(b *hclsyntax.Body, ctx *hcl.EvalContext) (f *AFile, ok bool) {
 	f = &AFile{}
 	ok = true
 	for _, it := range sortedItems(b) {
 		if it.attr != nil {
-			v, diags := it.attr.Expr.Value(nil)
+			v, diags := it.attr.Expr.Value(ctx)
 			if len(diags) > 0 {
 				ok = false
 				v = cty.DynamicVal
 			}
 			f.Attrs = append(f.Attrs, AAttr{it.attr.Name, v})
 		} else {
-			sub, subok := fileOfBody(it.block.Body)
+			sub, subok := fileOfBodyCtx(it.block.Body, ctx)
 			if !subok {
 				ok = false
 			}
@@ -466,3 +469,60 @@ func perturb(r *hv.Rng, t *Ty, f *AFile) (kind string, jsonComparable bool) {
 }
 
 var _ = hcl.InitialPos
+
+// ---- marked values ---------------------------------------------------------------------------
+
+// markSome marks v and/or some of its elements (marks m1..m3).
+func markSome(r *hv.Rng, v cty.Value, force bool) cty.Value {
+	if v.IsKnown() && !v.IsNull() {
+		ty := v.Type()
+		switch {
+		case ty.IsTupleType() && v.LengthInt() > 0:
+			var vs []cty.Value
+			for it := v.ElementIterator(); it.Next(); {
+				_, ev := it.Element()
+				if r.Chance(0.4) {
+					ev = markSome(r, ev, true)
+				}
+				vs = append(vs, ev)
+			}
+			v = cty.TupleVal(vs)
+		case ty.IsObjectType() && v.LengthInt() > 0:
+			m := map[string]cty.Value{}
+			for it := v.ElementIterator(); it.Next(); {
+				k, ev := it.Element()
+				if r.Chance(0.4) {
+					ev = markSome(r, ev, true)
+				}
+				m[k.AsString()] = ev
+			}
+			v = cty.ObjectVal(m)
+		}
+	}
+	if force || r.Chance(0.5) {
+		v = v.Mark(r.Pick("m1", "m2", "m3"))
+	}
+	return v
+}
+
+// markedVariant: the file of the value with every top-level attribute given as a
+// reference to a variable holding the (partly) marked value.
+func markedVariant(r *hv.Rng, f *AFile) (src []byte, ctx *hcl.EvalContext, err error) {
+	defer func() {
+		if p := recover(); p != nil {
+			err = fmt.Errorf("writer panic: %v", p)
+		}
+	}()
+	wf := hclwrite.NewEmptyFile()
+	vars := map[string]cty.Value{}
+	for i, a := range f.Attrs {
+		vn := fmt.Sprintf("v%d", i)
+		vars[vn] = markSome(r, a.V, i == 0)
+		wf.Body().SetAttributeTraversal(a.Name, hcl.Traversal{hcl.TraverseRoot{Name: vn}})
+	}
+	for _, b := range f.Blocks {
+		nb := wf.Body().AppendNewBlock(b.Type, b.Labels)
+		writeNative(b.Body, nb.Body())
+	}
+	return wf.Bytes(), &hcl.EvalContext{Variables: vars}, nil
+}
